@@ -130,8 +130,8 @@ class Ctx:
         i = self.ndec
         self.ndec += 1
         if i < len(self.prefix):
-            d = self.prefix[i]
-            self.trace.append((d, False))
+            d, alt = self.prefix[i]
+            self.trace.append((d, alt))      # a still-unexplored alternative of an earlier fork stays pending
         else:
             t = self.feasible(c)
             if not t:
